@@ -132,6 +132,27 @@ pub fn run_case(line: &str) -> String {
                 Err(e) => format!("err {}", dkind(&e)),
             }
         }
+        "dech" => {
+            // a history of decode calls on one thread: `<hex>,<hex>,...` (whatever one call leaves behind must not
+            // reach the next); `T` in front of an element: decode_with_trailing
+            let h = rest.split_whitespace().next().unwrap_or(".");
+            h.split(',')
+                .map(|x| {
+                    if let Some(y) = x.strip_prefix('T') {
+                        match erltf::decoder::decode_with_trailing(&unhex(y)) {
+                            Ok((t, r)) => format!("ok {} rest={}", term_str(&t), hex(r)),
+                            Err(e) => format!("err {}", dkind(&e)),
+                        }
+                    } else {
+                        match erltf::decode(&unhex(x)) {
+                            Ok(t) => format!("ok {}", term_str(&t)),
+                            Err(e) => format!("err {}", dkind(&e)),
+                        }
+                    }
+                })
+                .collect::<Vec<_>>()
+                .join(" ;; ")
+        }
         "decb" => {
             let h = rest.split_whitespace().next().unwrap_or(".");
             let data = unhex(h);
